@@ -2,6 +2,7 @@ package keeper
 
 import (
 	"fmt"
+	"sort"
 
 	keytypes "github.com/ExocoreNetwork/exocore/types/keys"
 	avstypes "github.com/ExocoreNetwork/exocore/x/avs/types"
@@ -9,7 +10,6 @@ import (
 	abci "github.com/cometbft/cometbft/abci/types"
 	cryptocodec "github.com/cosmos/cosmos-sdk/crypto/codec"
 	sdk "github.com/cosmos/cosmos-sdk/types"
-	stakingtypes "github.com/cosmos/cosmos-sdk/x/staking/types"
 	"github.com/ethereum/go-ethereum/common"
 	"github.com/ethereum/go-ethereum/common/hexutil"
 )
@@ -128,19 +128,43 @@ func (k Keeper) ExportGenesis(ctx sdk.Context) *types.GenesisState {
 	genesis := types.DefaultGenesis()
 	genesis.Params = k.GetDogfoodParams(ctx)
 	validators := []types.GenesisValidator{}
-	k.IterateBondedValidatorsByPower(ctx, func(_ int64, val stakingtypes.ValidatorI) bool {
-		// #nosec G703 // already validated
-		pubKey, _ := val.ConsPubKey()
+	chainIDWithoutRevision := avstypes.ChainIDWithoutRevision(ctx.ChainID())
+	storedValidators := k.GetAllExocoreValidators(ctx)
+	sort.SliceStable(storedValidators, func(i, j int) bool {
+		return storedValidators[i].Power > storedValidators[j].Power
+	})
+	for _, stored := range storedValidators {
+		pubKey, err := stored.ConsPubKey()
+		if err != nil {
+			continue
+		}
+		// as before, a validator is exported under its operator's current consensus key (which
+		// differs from the stored one between a key replacement and the end of that epoch).
+		// only the key lookup is needed for that: going through the staking-validator view of
+		// the operator module also requires the operator's USD value to be computable, and a
+		// validator whose operator is, for example, opting out while one of its assets has no
+		// valid price was silently dropped from the export; the exported set then missed
+		// validators and could even be empty.
+		found, operatorAddr := k.operatorKeeper.GetOperatorAddressForChainIDAndConsAddr(
+			ctx, chainIDWithoutRevision, sdk.GetConsAddress(pubKey),
+		)
+		if !found {
+			continue
+		}
+		hasKey, currentKey, err := k.operatorKeeper.GetOperatorConsKeyForChainID(ctx, operatorAddr, chainIDWithoutRevision)
+		if err != nil || !hasKey {
+			continue
+		}
+		pubKey = currentKey.ToSdkKey()
 		// #nosec G703 // already validated
 		convKey, _ := cryptocodec.ToTmPubKeyInterface(pubKey)
 		validators = append(validators,
 			types.GenesisValidator{
 				PublicKey: hexutil.Encode(convKey.Bytes()),
-				Power:     val.GetConsensusPower(sdk.DefaultPowerReduction),
+				Power:     stored.Power,
 			},
 		)
-		return false // stop == false => continue iteration
-	})
+	}
 	return types.NewGenesis(
 		k.GetDogfoodParams(ctx),
 		validators,
